@@ -218,3 +218,46 @@ def run(F, rep):
                 rep.check(not extra, 'C11.E3', '%s|%s' % (g.short, render(c)[:40]), g.where(c), '%s re-creates an equivalence only when %s' % (g.short, ' and '.join('`%s` is %s' % e for e in extra)[:160]), 'for every recorded pair')
     if n_e3 < 1:
         raise AnalysisBroken('C11.E3: addEquivalence vanished from the helpers of Model::clone')
+
+    # ------------------------------------------------------------------ X1 / D3
+    rep.rule('C11.X1', 'in clone() every child read inside an index loop over the object\'s own children is read with that loop\'s index (an accessor that looks a child up by reference/name returns the first match: repeated references are cloned from the wrong child)')
+    from engines import indexed_child_accesses
+    n_x = 0
+    for cls in CLASSES:
+        try:
+            cf = clone_fn(F, cls)
+        except AnalysisBroken:
+            continue
+        for loop, c, ivar, uses in indexed_child_accesses(cf):
+            n_x += 1
+            rep.check(uses, 'C11.X1', '%s::clone|%s' % (cls, render(c)[:50]), cf.where(c), '%s::clone reads a child with `%s`, which does not use the loop index %s' % (cls, render(c)[:60], ivar), 'indexed by ' + ivar)
+    if n_x < 6:
+        raise AnalysisBroken('C11.X1: only %d indexed child reads in the clone functions (8 confirmed)' % n_x)
+
+    rep.rule('C11.D3', 'a data member of the copy that holds an entity (units of a variable, variables of a reset, import source) is given an entity by clone(): the call on the copy that writes such a member takes a shared_ptr argument, '
+                       'not a name from which an empty stand-in would be created')
+    n_d3 = 0
+    for cls in CLASSES:
+        try:
+            cf = clone_fn(F, cls)
+        except AnalysisBroken:
+            continue
+        cv = copy_var(cf)
+        ent_fields = {n_ for n_, q, fld in fields.impl_fields(F, cls) if (fld.get('t') or '').startswith(('std::shared_ptr<libcellml::', 'std::weak_ptr<libcellml::')) and n_ != 'mParent'}
+        cvn = cv.get('n') if isinstance(cv, dict) else cv
+        for c in cf.walk():
+            if c.get('k') == 'Call' and c.get('mc') and not c.get('opc') and cv is not None and render(receiver(c)) == cvn:
+                w = set()
+                for ck in F.callee_keys(c):
+                    if ck in F.funcs:
+                        w |= fields.this_writes(F, F.funcs[ck])
+                hit = w & ent_fields
+                if not hit or not c['c'][1:]:
+                    continue
+                n_d3 += 1
+                a0 = c['c'][1]
+                t0 = (a0.get('t') or a0.get('rt') or '')
+                is_ptr = 'shared_ptr' in t0 or 'weak_ptr' in t0 or a0.get('k') == 'Null_' or (a0.get('k') == 'Call' and a0.get('fn') in ('clone', 'create'))
+                rep.check(is_ptr, 'C11.D3', '%s::clone|%s' % (cls, render(c)[:50]), cf.where(c), '%s::clone sets %s of the copy from `%s` (%s), not from an entity: the content of the original\'s %s is not copied' % (cls, sorted(hit), render(a0)[:40], t0[:40] or 'not a pointer', sorted(hit)), 'entity argument')
+    if n_d3 < 3:
+        raise AnalysisBroken('C11.D3: only %d entity-member writes on the copy (5 confirmed)' % n_d3)
